@@ -14,7 +14,7 @@ from __future__ import annotations
 import ast
 
 from ..absint import (Interp, Sym, BufV, BytesV, Comp, Lin, Obj, Raised, explore, show, Bound)
-from ..bits import Bits, TOP
+from ..bits import Bits, TOP, bits_relation
 from ..consts import Folder, Ref, EnumVal, Unknown
 from ..model import DEX, DEX_TYPES, AnalysisError
 from ..spec import dalvik
@@ -37,10 +37,22 @@ def subst(v, asg):
     return v.subst(asg) if isinstance(v, Bits) else v
 
 
+class _Undecided(Exception):
+    pass
+
+
 def same_bits(v, exp, asg):
+    """True/False; raises AnalysisError when the value left the exact bit domain and no known bit contradicts the spec"""
     if isinstance(v, int) and not isinstance(v, bool):
         v = Bits.const(v)
-    return isinstance(v, Bits) and v.subst(asg) == exp
+    if isinstance(v, Bits):
+        rel = bits_relation(v.subst(asg), exp)
+        if rel == "unknown":
+            raise AnalysisError("an operand value left the exact bit domain (%s): the code uses arithmetic the interpreter cannot follow" % v.subst(asg).describe())
+        return rel == "equal"
+    if isinstance(v, (Sym, Lin)):
+        raise AnalysisError("an operand value is an opaque term (%s): outside the interpreter's fragment" % show(v)[:120])
+    return False
 
 
 def run(ctx):
@@ -54,29 +66,35 @@ def run(ctx):
     table_node = m.assigns.get("DALVIK_OPCODES_FORMAT")
     tfunc = "DALVIK_OPCODES_FORMAT"
 
-    # ---- get_instruction shape -------------------------------------------
+    # ---- get_instruction: interpreted ------------------------------------------
     gi = m.func("get_instruction")
     ctx.analysed(gi)
-    params = gi.params()
-    ok_index = False
-    ok_convert = False
-    for n in ast.walk(gi.node):
-        if isinstance(n, ast.Call) and isinstance(n.func, ast.Subscript) and isinstance(n.func.value, ast.Subscript):
-            inner = n.func.value
-            if (isinstance(inner.value, ast.Name) and inner.value.id == "DALVIK_OPCODES_FORMAT"
-                    and isinstance(inner.slice, ast.Name) and inner.slice.id == params[1]
-                    and isinstance(n.func.slice, ast.Constant) and n.func.slice.value == 0
-                    and [ast.unparse(a) for a in n.args] == [params[0], params[2]]):
-                ok_index = True
-        if isinstance(n, ast.Try):
-            for h in n.handlers:
-                if h.type is not None and "struct.error" in ast.unparse(h.type):
-                    if any(isinstance(x, ast.Raise) and x.exc is not None and "InvalidInstruction" in ast.unparse(x.exc) for x in h.body):
-                        ok_convert = True
-    ctx.check("dispatch", "get_instruction indexes DALVIK_OPCODES_FORMAT[op_value][0](cm, buff)", ok_index, gi, gi.node.name,
-              "get_instruction does not dispatch on DALVIK_OPCODES_FORMAT[op_value][0](cm, buff)")
-    ctx.check("dispatch", "struct.error -> InvalidInstruction", ok_convert, gi, "except struct.error",
-              "a short buffer (struct.error) is not converted to InvalidInstruction")
+    for probe_op, fail in ((0x12, False), (0x6E, False), (0x12, True)):
+        def construct(it, cls, args, kwargs, e, func, fail=fail):
+            if cls.is_subclass_of("Instruction") or cls.name.startswith("Instruction"):
+                if fail:
+                    raise Raised("struct.error", e, "short buffer")
+                return Sym("constructed", cls.name, *args)
+            return NotImplemented
+
+        def run_gi(asg, probe_op=probe_op, construct=construct):
+            it = Interp(repo, folder, asg=dict(asg), hooks={"construct": construct, "inline_funcs": {"*module*"}})
+            return it.call_function(gi, [Sym("cm"), probe_op, BufV("buff")])
+
+        res = explore(run_gi)
+        ctx.require(len(res) == 1, "get_instruction: abstract run split into %d paths" % len(res))
+        r = res[0][1]
+        want_cls = table[probe_op][0].name
+        if not fail:
+            if isinstance(r, Sym) and r.op != "constructed":
+                raise AnalysisError("get_instruction: result %s is outside the interpreter's fragment" % show(r)[:120])
+            okd = isinstance(r, Sym) and r.op == "constructed" and r.args[0] == want_cls and list(r.args[1:3]) == [Sym("cm"), r.args[2]] and isinstance(r.args[2], BufV)
+            ctx.check("dispatch", "get_instruction(cm, 0x%02x, buff) constructs %s(cm, buff)" % (probe_op, want_cls), okd, gi, "get_instruction(0x%02x)" % probe_op,
+                      "get_instruction(cm, 0x%02x, buff) yields %s; the table assigns %s(cm, buff)" % (probe_op, show(r)[:120], want_cls))
+        else:
+            okc = isinstance(r, Raised) and r.exc.endswith("InvalidInstruction")
+            ctx.check("dispatch", "struct.error -> InvalidInstruction", okc, gi, "short buffer in get_instruction",
+                      "a short buffer (struct.error in the constructor) surfaces from get_instruction as %s, not as InvalidInstruction" % (r if isinstance(r, Raised) else show(r)[:80]))
 
     kind_cls = ctx.mod(DEX_TYPES).cls("Kind")
     kinds = folder.enum_members(kind_cls)
@@ -138,15 +156,37 @@ class _T:
 
 
 def _check_packer(ctx, m):
+    """DalvikPacker(0x12345678)[fmt] must be struct.Struct('<' + fmt): interpreted, not pattern-matched"""
+    from ..absint import PackerV
     c = m.cls("DalvikPacker")
     gi = c.lookup("__getitem__")
-    ctx.require(gi is not None, "DalvikPacker.__getitem__ vanished")
-    src = ast.unparse(gi.node)
-    ok = "struct.Struct" in src and "self.endian_tag" in src or "Struct(" in src
     init = c.lookup("__init__")
-    le = any(isinstance(n, ast.Constant) and n.value == "<" for n in ast.walk(init.node))
-    ctx.check("packer", "DalvikPacker builds little-endian Structs", ok and le, gi, "DalvikPacker.__getitem__",
-              "DalvikPacker no longer maps packer[fmt] to struct.Struct('<'+fmt)")
+    ctx.require(gi is not None and init is not None, "DalvikPacker.__init__/__getitem__ vanished")
+    ctx.analysed(gi)
+    folder = Folder(ctx.repo)
+
+    def run(asg):
+        it = Interp(ctx.repo, folder, asg=dict(asg), hooks={"inline_funcs": {"*module*"}})
+        o = it.new_obj(c, "packer")
+        it.call_function(init, [0x12345678], recv=o)
+        return [it.call_function(gi, [fmt], recv=o) for fmt in ("BBh", "3H", "BBh")]
+
+    res = explore(run)
+    ok = len(res) >= 1
+    why = ""
+    for asg, r in res:
+        if isinstance(r, Raised):
+            ok, why = False, "raises %s" % r
+            break
+        for fmt, v in zip(("BBh", "3H", "BBh"), r):
+            if isinstance(v, PackerV):
+                if v.fmt != "<" + fmt:
+                    ok, why = False, "packer[%r] is struct format %r" % (fmt, v.fmt)
+            else:
+                raise AnalysisError("DalvikPacker.__getitem__: result %s is outside the interpreter's fragment" % show(v)[:120])
+    ctx.check("packer", "DalvikPacker(0x12345678)[fmt] == struct.Struct('<'+fmt)", ok, gi, "DalvikPacker.__getitem__",
+              "DalvikPacker no longer maps packer[fmt] to the little-endian struct.Struct('<'+fmt): %s" % why,
+              detail="packer['BBh'] -> Struct('<BBh')")
 
 
 def _check_unused(ctx, repo, folder, m, op, cls, table_node):
